@@ -360,6 +360,20 @@ func TestC03Regress(t *testing.T) {
 			}
 		}
 	}
+	// D41: body limit switched off, a length that no machine has
+	for _, cl := range []string{"9000000000000000000", "9223372036854775807", "4611686018427387904"} {
+		in := "POST /upload HTTP/1.1\r\nHost: example.com\r\nContent-Length: " + cl + "\r\n\r\nabc"
+		for _, stream := range []bool{false, true} {
+			for _, end := range []sconn.End{sconn.EOF, sconn.Timeout} {
+				obs, res, _ := server(stream, -1).Run([][]byte{[]byte(in)}, end)
+				rec.Case(true, ev.Hash([]byte(in), []byte(fmt.Sprint(stream, end))), "server", "body-limit-off")
+				if _, msg := judgeServer([]byte(in), obs, res, end); msg != "" {
+					ev.Fail(prop, "regress", map[string]interface{}{"input": in, "streaming": stream, "body_limit": "off"}, msg)
+					t.Errorf("%q streaming=%v limit off: %s", in, stream, msg)
+				}
+			}
+		}
+	}
 	for _, in := range regressClientInputs {
 		for _, stream := range []bool{false, true} {
 			o := clientRun(stream, "GET", []byte(in), nil)
